@@ -403,8 +403,11 @@ pub fn verbatim_slices(text: &str) -> Vec<String> {
     let mut out = vec![];
     for (_id, term) in parsed.parser.arena.terms.iter() {
         if let Term::Meta(MetaT(meta, payload)) = term {
-            let is_verbatim = meta.is("format")
-                && meta.arguments().iter().any(|a| a.is("verbatim") || a.as_ident() == Some("verbatim"));
+            // only a directive that decodes (no duplicate / unknown options) is in force
+            let is_verbatim = matches!(
+                meta.specialize::<zydeco_surface::metadata::FormatMeta>(),
+                Ok(Some(zydeco_surface::metadata::FormatMeta { verbatim: true, .. }))
+            );
             if is_verbatim {
                 let (s, e) = parsed.parser.spans[&EntityId::Term(*payload)].get_cursor1();
                 if let Some(slice) = text.get(s..e) {
